@@ -68,7 +68,7 @@ WrapCases == {[op |-> "tojson", m |-> m] : m \in WrapMsgs}
 \* ---- Value / Struct / ListValue
 Keys == {<<97>>, <<98>>}
 Leaves == {V("null", <<>>), V("bool", <<1>>), V("num", [c |-> "int", d |-> Neg(Lit(<<7>>))]), V("num", [c |-> "lit", d |-> <<49, cDot, 53>>]),
-           V("str", <<97>>), V("unset", <<>>), V("num", [c |-> "nan", d |-> <<>>])}
+           V("str", <<97>>), V("unset", <<>>), V("num", [c |-> "nan", d |-> <<>>]), V("num", [c |-> "ninf", d |-> <<>>])}
 RECURSIVE Vals(_)
 Vals(d) == IF d = 0 THEN Leaves
            ELSE LET S == Vals(d - 1) IN
